@@ -2,10 +2,7 @@ module verif/harness
 
 go 1.25.10
 
-require (
-	github.com/prometheus/common v0.70.1
-	github.com/prometheus/prometheus v0.0.0
-)
+require github.com/prometheus/prometheus v0.0.0
 
 require (
 	github.com/beorn7/perks v1.0.1 // indirect
@@ -15,6 +12,7 @@ require (
 	github.com/munnerz/goautoneg v0.0.0-20191010083416-a7dc8b61c822 // indirect
 	github.com/prometheus/client_golang v1.24.1 // indirect
 	github.com/prometheus/client_model v0.6.2 // indirect
+	github.com/prometheus/common v0.70.1 // indirect
 	github.com/prometheus/procfs v0.21.1 // indirect
 	go.uber.org/atomic v1.11.0 // indirect
 	golang.org/x/sys v0.47.0 // indirect
